@@ -115,7 +115,7 @@ class EAlias(Engine):
                        'mutation_with_self_operand', 'array_mutated')
 
     def plan(self, tier, base_seed):
-        return self.seeded_plan(tier, base_seed, quick=(5000, 40), thorough=(500000, 60))
+        return self.seeded_plan(tier, base_seed, quick=(16000, 40), thorough=(1200000, 60))
 
     def config(self, g, desc):
         init = []
